@@ -162,6 +162,7 @@ impl Pair {
                     }
                 }
             }
+            "end" => {}
             "o" => {
                 let a = self.o.step(&st["step"]).await;
                 merge(&mut lo, a.as_object().cloned().unwrap_or_default());
